@@ -36,8 +36,8 @@ pub fn corr(ctx: &mut Ctx, family: &str) {
     let ns: Vec<usize> = if ctx.quick() { vec![255, 256, 257, 1024, 4097, 8192, 8193, 65_536, 65_537] } else { vec![255, 256, 257, 1023, 1024, 1025, 4095, 4096, 4097, 8191, 8192, 8193, 16_384, 65_535, 65_536, 65_537, 131_073] };
     let ms: Vec<usize> = vec![5, 8, 64, 100, 256, 1001];
     for (i, n) in ns.iter().enumerate() {
-        let m = ms[i % ms.len()];
         let mut rng = ctx.rng.fork();
+        let m = { let _ = i; *rng.pick(&ms) };
         let items = gen_stream(&mut rng, *n);
         ctx.begin_case(&format!("threshold sizes {} n={} m={}", family, n, m));
         ctx.mark_nontrivial();
